@@ -300,8 +300,10 @@ def c16_export(w, ev, slot):
                     for cat, ds in f[axis]['metadata'].items():
                         mdd[axis + '/' + cat] = repr(ds[()].tolist())
             os.unlink(p)
-            if d is None:
-                w.fail('c16.export', 'HDF5 export not decodable: %r' % probs)
+            if d is None or d['dense'] is None:
+                w.fail('c16.export', 'HDF5 export of one of two equal tables '
+                       'is not decodable per the specification: %r'
+                       % (probs[:3],))
             dec.append((d['ids'], d['dense'].tolist(), mdd))
         if dec[0] != dec[1]:
             w.fail('c16.export', 'equal tables give different HDF5 content')
